@@ -56,10 +56,27 @@ def parseFlags (s : String) : Option (Bool × Bool) :=
   | ['d', c] => (authShape c).map fun a => (true, a)
   | _ => none
 
+/-- one configured sni name: `hex`, or `hex=hex` for a name with non-ASCII symbols — the name and what
+    `idna.ToASCII` makes of it (an external call, observed by the harness). Exactly the non-ASCII
+    names carry the second part. -/
+def parseSniName (tok : String) : Option (Bytes × Option Bytes) :=
+  match tok.splitOn "=" with
+  | [h] => (hexField h).bind fun b => if noBraces b && isAscii b then some (b, none) else none
+  | [h, c] =>
+    match hexField h, hexField c with
+    | some b, some a =>
+      if noBraces b && !isAscii b && isAscii a && noBraces a then some (b, some a) else none
+    | _, _ => none
+  | _ => none
+
+/-- the name the provisioned sni matcher compares with.  MatchServerName does not convert its names
+    (caddyhttp's MatchHost does), so this is the name as written. -/
+def provisionedSniName (n : Bytes × Option Bytes) : Bytes := n.1
+
 def parseSni (s : String) : Option (Option (List Bytes)) :=
   if s == "~" then some none
   else if s == "." then some (some [])
-  else ((s.splitOn ",").mapM fun h => (hexField h).bind fun b => if noBraces b then some b else none).map some
+  else ((s.splitOn ",").mapM fun tok => (parseSniName tok).map provisionedSniName).map some
 
 def nRemote : Nat := 6
 def nLocal : Nat := 4
@@ -158,6 +175,9 @@ def e2ePolicies : List Policy := [⟨[.sni [e2eSecret]], false, true⟩, ⟨[], 
 def e2eSites : List Bytes := [e2eSecret, e2ePublic]
 /-- e2e server 3 protects the wildcard site `*.secret.test` -/
 def e2eSitesWild : List Bytes := [[42, 46] ++ e2eSecret, e2ePublic]
+/-- e2e server 4 protects the IDN site written `é.test` in the config; MatchHost.Provision converts
+    the route's host to its IDNA form -/
+def e2eSitesIdn : List Bytes := [str "xn--9ca.test", e2ePublic]
 
 /-- SNIs an e2e case may carry: non-empty, no trailing dot, no `%`, some letter g–z / G–Z
     (so Go's client sends it verbatim: it is not an IP literal) -/
@@ -305,13 +325,13 @@ def handle : List String → String
   | ["e2e", srv, hs, sni, host] =>
     match hexField sni, hexField host with
     | some s, some h =>
-      if !(srv == "0" || srv == "1" || srv == "2" || srv == "3") then "bad-op"
+      if !(srv == "0" || srv == "1" || srv == "2" || srv == "3" || srv == "4") then "bad-op"
       else if !e2eSniOk s then "bad-op"
       else if hs == "f" then "hs=f"
       else if hs == "p0" || hs == "p1" then
         -- every e2e server has one client-auth policy (shape differs, decision does not) and no explicit setting
         let strict := effectiveStrict none e2ePolicies
-        "hs=" ++ hs ++ " strict=" ++ (if strict then "1" else "0") ++ " " ++ showServed (serve strict (if srv == "3" then e2eSitesWild else e2eSites) (some s) h)
+        "hs=" ++ hs ++ " strict=" ++ (if strict then "1" else "0") ++ " " ++ showServed (serve strict (if srv == "3" then e2eSitesWild else if srv == "4" then e2eSitesIdn else e2eSites) (some s) h)
       else "bad-op"
     | _, _ => "bad-op"
   | ["pol", l, pols, hellos] =>
